@@ -79,7 +79,8 @@ def lean_witnesses():
     vlib.lake_build(["IsalVerif.Gen.Resubmit", "IsalVerif.Lemmas.ResubmitCProofs"])
     r = vlib.run(["lake", "env", "lean", path], cwd=vlib.LEAN)
     out = []
-    for m in re.finditer(r'\("([^"]+)", (none|some \(([\d, ]+)\)), (true|false)\)', r.stdout):
+    flat = re.sub(r"\s+", " ", r.stdout)
+    for m in re.finditer(r'\("([^"]+)", (none|some \(([\d, ]+)\)), (true|false)\)', flat):
         if m.group(4) != "true":
             out.append((m.group(1), tuple(int(x) for x in m.group(3).split(",")) if m.group(3) else None))
     return out, r.stdout[-300:] + r.stderr[-300:]
